@@ -220,16 +220,18 @@ theorem findChildren_ok (m : XmlMeta) (hm : metaNoQ m = true) (q : QN) :
   · simp only [Option.mem_toList] at hv
     exact findWildcard_ok m hm q v hv
 
-theorem fetch_ok (Γ : Ctx) (hΓ : ctxNoQ Γ = true) (c : ClassId) (pns : Option Str) (xt : Option QN) (m : XmlMeta)
-    (h : Γ.fetch c pns xt = .ok m) : metaNoQ m = true := by
-  have hfind : ∀ c' pns' m', (Γ.find c').bind (·.metaFor pns') = some m' → metaNoQ m' = true := by
+/-- every metadata `XmlContext.fetch` returns is one of the exported metadata of the universe -/
+theorem fetch_all (P : XmlMeta → Bool) (Γ : Ctx) (hΓ : (Γ.classes.all fun ci => ci.metas.all fun pm => P pm.2) = true)
+    (c : ClassId) (pns : Option Str) (xt : Option QN) (m : XmlMeta)
+    (h : Γ.fetch c pns xt = .ok m) : P m = true := by
+  have hfind : ∀ c' pns' m', (Γ.find c').bind (·.metaFor pns') = some m' → P m' = true := by
     intro c' pns' m' h'
     cases hf : Γ.find c' with
     | none => simp [hf] at h'
     | some ci =>
       simp only [hf, Option.bind_some] at h'
       have hci : ci ∈ Γ.classes := find?_mem' (by unfold Ctx.find at hf; exact hf)
-      simp only [ctxNoQ, List.all_eq_true] at hΓ
+      simp only [List.all_eq_true] at hΓ
       have hall := hΓ ci hci
       unfold ClassInfo.metaFor at h'
       split at h'
@@ -256,6 +258,10 @@ theorem fetch_ok (Γ : Ctx) (hΓ : ctxNoQ Γ = true) (c : ClassId) (pns : Option
         · cases h; exact hfind _ _ _ hm0
       · cases h; exact hfind _ _ _ hm0
     · cases h; exact hfind _ _ _ hm0
+
+theorem fetch_ok (Γ : Ctx) (hΓ : ctxNoQ Γ = true) (c : ClassId) (pns : Option Str) (xt : Option QN) (m : XmlMeta)
+    (h : Γ.fetch c pns xt = .ok m) : metaNoQ m = true :=
+  fetch_all metaNoQ Γ hΓ c pns xt m h
 
 /-! ### the binding steps that receive a prefix map -/
 
